@@ -27,7 +27,8 @@ RULE = ("Object zoo: every value produced while evaluating seeded specifier tree
         "in different orders, compound markers with permuted children). Pairs are drawn inside buckets of equal "
         "signature (critical-point vector / evaluation vector) and across buckets; triples inside buckets. "
         "In-situ: every __eq__ call made by the library during those workloads. Non-trivial/distinct: pairs of "
-        "non-identical objects that compare equal.")
+        "non-identical objects that compare equal."
+        " The zoo contains the spellings of the universal/empty set through the least version (>=0.dev0, <0.dev0, their complements).")
 ASSUMPTIONS = [
     "signatures: exact critical-point vectors for specifiers, sampled evaluation vectors for markers",
     "Python data-model contract: x == y implies hash(x) == hash(y); == reflexive, symmetric, transitive",
